@@ -179,7 +179,7 @@ Lemma update_unfold s t size hb hi : hnd s t = Some (hb, hi) ->
     else (mkpos (line sz1) (col sz1 + (col size - col old)), b_lnl r)) in
   update s t size = (set_blk s hb (mkblk (b_index r) (b_toks r) (fst X) (snd X)), Ok tt).
 Proof.
-  intros H r old sz1 X. unfold update, check_handle. fold (hnd s t). rewrite H. fold r. unfold tsz in old. fold old. fold sz1.
+  intros H r old sz1 X. unfold update. rewrite check_handle_hnd, H. fold r. unfold tsz in old. fold old. fold sz1.
   subst X. destruct (hi <? b_lnl r); [reflexivity|].
   destruct (negb (line size =? 0) && (line old =? 0)); [reflexivity|].
   destruct (negb (line old =? 0) && (line size =? 0)); [|reflexivity].
@@ -201,8 +201,8 @@ Proof.
 Qed.
 
 Lemma settext_inv_core s s' t x : Inv0 s ->
-  s_blocks s' = s_blocks s -> s_next s' = s_next s ->
-  s_toks s' = PositiveMap.add t (mktok x (token_size x) (hnd s t)) (s_toks s) ->
+  s_blocks s' = s_blocks s -> s_next s' = s_next s -> s_id s' = s_id s ->
+  s_toks s' = PositiveMap.add t (mktok x (token_size x) (raw s t)) (s_toks s) ->
   (forall b, toks s' b = toks s b /\ bidx s' b = bidx s b) ->
   (forall b, In b (s_blocks s) -> ~ In t (toks s b) -> bsz s' b = bsz s b /\ blnl s' b = blnl s b) ->
   (forall b, In b (s_blocks s) -> In t (toks s b) ->
@@ -210,9 +210,9 @@ Lemma settext_inv_core s s' t x : Inv0 s ->
   Inv0 s' /\ abs s' = abs s /\ (forall u, hnd s' u = hnd s u) /\ txt s' t = x /\
   (forall u, u <> t -> txt s' u = txt s u /\ tsz (s_toks s') u = tsz (s_toks s) u).
 Proof.
-  intros I Eb En Et Hh Hother Hsame.
+  intros I Eb En Eid Et Hh Hother Hsame.
   assert (forall u, hnd s' u = hnd s u) as Hhnd.
-  { intro u. unfold hnd. rewrite Et. destruct (Pos.eq_dec u t) as [->|N]; [rewrite tget_add_same; reflexivity|].
+  { intro u. apply hnd_ext; [exact Eid|]. unfold raw. rewrite Et. destruct (Pos.eq_dec u t) as [->|N]; [rewrite tget_add_same; reflexivity|].
     rewrite tget_add_other by assumption. reflexivity. }
   assert (forall u, u <> t -> tget (s_toks s') u = tget (s_toks s) u) as Hoth.
   { intros u N. rewrite Et. apply tget_add_other; assumption. }
@@ -242,11 +242,39 @@ Proof.
   - unfold tsz. rewrite Hoth by assumption. reflexivity.
 Qed.
 
+Lemma set_text_unfold s t x : set_text s t x =
+  let size := token_size x in
+  let '(s1, rr) := match hnd s t with Some _ => update s t size | None => (s, Ok tt) end in
+  match rr with
+  | Err e => (s1, Err e)
+  | Ok _ => let r := tget (s_toks s1) t in
+            (with_toks s1 (PositiveMap.add t (mktok x size (t_handle r)) (s_toks s1)), Ok tt)
+  end.
+Proof.
+  unfold set_text, hnd, raw. destruct (t_handle (tget (s_toks s) t)) as [[[sid b] j]|]; [|reflexivity].
+  destruct (Pos.eqb sid (s_id s)); reflexivity.
+Qed.
+
+(* a text update never touches any handle, nor the identity of the store *)
+Lemma set_text_raw s t x : s_id (fst (set_text s t x)) = s_id s /\ forall u, raw (fst (set_text s t x)) u = raw s u.
+Proof.
+  assert (forall s1, s_id s1 = s_id s -> s_toks s1 = s_toks s ->
+            let s2 := with_toks s1 (PositiveMap.add t (mktok x (token_size x) (t_handle (tget (s_toks s1) t))) (s_toks s1)) in
+            s_id s2 = s_id s /\ forall u, raw s2 u = raw s u) as G.
+  { intros s1 E1 E2 s2. split; [exact E1|]. intro u. unfold raw, s2. cbn [s_toks with_toks]. rewrite E2.
+    destruct (Pos.eq_dec u t) as [->|N]; [rewrite tget_add_same; reflexivity|rewrite tget_add_other by assumption; reflexivity]. }
+  unfold set_text. destruct (t_handle (tget (s_toks s) t)) as [[[sid b] j]|]; [|apply G; reflexivity].
+  destruct (Pos.eqb sid (s_id s)); [|apply G; reflexivity].
+  unfold update. destruct (check_handle s t) as [[hb hi]|e]; [|cbn; auto].
+  repeat match goal with |- context [if ?c then _ else _] => destruct c end;
+    try (destruct (back_scan _ _ _)); apply G; reflexivity.
+Qed.
+
 Theorem set_text_spec s t x s' r : Inv s -> set_text s t x = (s', r) ->
   r = Ok tt /\ Inv s' /\ abs s' = abs s /\ (forall u, hnd s' u = hnd s u) /\ txt s' t = x /\
   (forall u, u <> t -> txt s' u = txt s u).
 Proof.
-  intros [I L] H. unfold set_text in H. fold (hnd s t) in H.
+  intros [I L] H. rewrite set_text_unfold in H. cbv zeta in H.
   destruct (hnd s t) as [[hb hi]|] eqn:Eh.
   - rewrite (update_unfold s t (token_size x) hb hi Eh) in H. cbv zeta in H.
     match type of H with context [mkblk _ _ (fst ?X) (snd ?X)] => set (XX := X) in * end.
@@ -261,6 +289,7 @@ Proof.
     { rewrite Esplit in NDb. apply NoDup_remove_2 in NDb. split; intro; apply NDb; apply in_or_app; auto. }
     destruct (settext_inv_core s (with_toks s1 (PositiveMap.add t
                  (mktok x (token_size x) (t_handle (tget (s_toks s1) t))) (s_toks s1))) t x I) as (I' & Ea & Hh & Ht & Hu).
+    + reflexivity.
     + reflexivity.
     + reflexivity.
     + reflexivity.
@@ -289,7 +318,8 @@ Proof.
                  (mktok x (token_size x) (t_handle (tget (s_toks s) t))) (s_toks s))) t x I) as (I' & Ea & Hh & Ht & Hu).
     + reflexivity.
     + reflexivity.
-    + cbn. unfold hnd in Eh. rewrite Eh. f_equal. f_equal. unfold hnd. rewrite Eh. reflexivity.
+    + reflexivity.
+    + reflexivity.
     + intro b. split; reflexivity.
     + intros; split; reflexivity.
     + intros b Hb Hin. exfalso. apply (inv_free_not_in s t I Eh). apply in_abs. exists b. auto.
